@@ -1,5 +1,7 @@
 import PsV.Proofs.FitsWrite
 import PsV.Proofs.FitsBytes
+import PsV.Proofs.FitsRoundTrip
+import PsV.Proofs.FitsCrash
 /-!
 # C08 — interrupted or failing writes never pass as success or load as another table
 
@@ -146,12 +148,11 @@ theorem C08_reader_prefix_stable (bs : Bytes) (n : Nat) (c : Core)
   readCoreBytes_prefix (List.take_prefix n bs) c h
 
 /- Full statement of C08_prefix_safe:
-     ∀ t (wf : t well-formed: ndim ≥ 1, matching lengths, values in range, extra cards not named END/ORDERn/NAXISn/…) n,
+     ∀ t (wf : t well-formed: ndim ≥ 1, matching lengths, values in range, extra cards not named END/ORDER/EXTNAME) n,
        readBytes ((encode t).take n) = none ∨ ∃ v, readBytes ((encode t).take n) = some v ∧ v.core = t.core
-   Proved below with the round trip `readCoreBytes (encode t) = some t.core` as a hypothesis instead of deriving it
-   from well-formedness (missing: the card-level round-trip lemmas — decimal formatting of values and of the index in
-   ORDERn/NAXISn/KNOTSn names, and `cardsOf ∘ flatten`).  The hypothesis is evaluated by the driver for every table the
-   check generates (`rt=1`, a test) and proved for the instance `tinyTable` below. -/
+   It is proved in Part 3 below (`C08_prefix_safe`, with `C08_roundtrip` for every table satisfying `Table.wf`).  The
+   version with the round trip `readCoreBytes (encode t) = some t.core` as a hypothesis is kept: it is the step from
+   the round trip to prefix safety, and `C08_prefix_safe` is its corollary. -/
 /-- C08 (crash safety of the file format as written): every byte prefix of the file of a table that round-trips is
     either rejected or loads with orders, axes, coefficients and knots equal to the table's. -/
 theorem C08_prefix_safe_partial (t : Table) (n : Nat) (hrt : readCoreBytes (encode t) = some t.core) :
@@ -199,5 +200,219 @@ theorem C08_prefix_safe_tiny (n : Nat) :
     readBytes ((encode tinyTable).take n) = none ∨
     ∃ v, readBytes ((encode tinyTable).take n) = some v ∧ v.core = tinyTable.core :=
   C08_prefix_safe_partial tinyTable n C08_roundtrip_instance
+
+/-! Part 3: the round trip for *every* well-formed table, and with it the unconditional prefix safety.
+    `Table.wf` (Model/FitsBytes.lean, executable: the driver evaluates it on every generated table, `wf=1`) is what
+    `write_fits` can be handed: 1 ≤ ndim ≤ 999, per dimension `nknots ≥ 2·order+2`, `naxes = nknots − order − 1`, knots
+    finite and non-decreasing, as many coefficients as the axes say, values within their C types, extra cards 80
+    columns wide and not called `END`, `ORDER` or `EXTNAME`. -/
+
+/-- C08 (round trip, all tables): the reader extracts from the file the encoder writes for a well-formed table exactly
+    the table's orders, axes, coefficients and knots.  Structural: header blocks → cards → look-ups by key
+    (`NAXISn`/`ORDERn`/`KNOTSn` are pairwise different because decimal numerals are injective), fixed-format integers
+    and big-endian words parse back, the reader's validation (`countsOk`, `knotsValid`) is implied by `wf`. -/
+theorem C08_roundtrip (t : Table) (h : t.wf = true) : readCoreBytes (encode t) = some t.core := roundtrip t h
+
+example : tinyTable.wf = true := by decide
+
+/-- a 2-d table (orders 1 and 0; knots 0,0,1,1 and 1,2; two coefficients) with a `PERIOD0` card, no extents -/
+def twoDimTable : Table :=
+  ⟨[1, 0], [2, 1], [1065353216, 3212836864], [[0, 0, 4607182418800017408, 4607182418800017408],
+    [4607182418800017408, 4611686018427387904]], none, [cardRaw "PERIOD0 =                   0."]⟩
+example : twoDimTable.wf = true := by decide
+
+/-- … and `read_fits_core` as a whole (extents included) accepts that file and returns the table. -/
+theorem C08_write_reads_back (t : Table) (h : t.wf = true) : ∃ v, readBytes (encode t) = some v ∧ v.core = t.core :=
+  readBytes_encode t h
+
+set_option maxRecDepth 10000 in
+/-- `wf` is not vacuous the other way either: a bare `ORDER` key among the aux cards makes the reader take it for the
+    order of every dimension (the file of such a table is rejected or loads differently) — hence excluded. -/
+example : ({ tinyTable with extraCards := [cardRaw "ORDER   = '3       '"] } : Table).wf = false := by decide
+
+/-- **C08_prefix_safe, full strength**: every byte prefix of the file of a well-formed table is rejected or loads with
+    orders, axes, coefficients and knots equal to the table's.  (Supersedes `C08_prefix_safe_partial`: the round trip
+    is no longer a hypothesis.) -/
+theorem C08_prefix_safe (t : Table) (h : t.wf = true) (n : Nat) :
+    readBytes ((encode t).take n) = none ∨
+    ∃ v, readBytes ((encode t).take n) = some v ∧ v.core = t.core :=
+  C08_prefix_safe_partial t n (C08_roundtrip t h)
+
+/-! Part 4: every failure path of the repaired writer, with the file system (`Model/FitsCrash.lean`): the calls made
+    issue libc operations — *any* operations (`World.io` is arbitrary: cfitsio's buffering is not modelled), each of
+    which may fail or write short — and `fits_create_file("!…")`, `fits_delete_file`, `remove` create and delete the
+    file.  `diskAfter` is the state of the file name when `write_fits` has returned. -/
+
+/-- C08 (error propagation): any call that reports an error — whichever, including the close and the clean-up calls —
+    makes `write_fits` report a failure. -/
+theorem C08_failing_call_is_reported (sh : Shape) (env : Env) (c : Step × Bool)
+    (hc : c ∈ (writeFits sh env).trace) (hf : c.2 = false) : (writeFits sh env).outcome = .failure :=
+  failing_call_reported (coreSteps sh) env c hc hf
+
+example : (Step.ppx, false) ∈ (writeFits ⟨1, true, 0, true⟩ (fun i => i != 5)).trace := by decide
+
+/-- C08 (libc faults): under cfitsio's contract `Surfaces` (a failing write or close inside a call makes that call or a
+    later one report an error; observed on every fault-injection run) a failing `fwrite` (no space, size limit, short
+    write) or `fclose` inside any call made — whatever else was written before or after — ends in a reported failure. -/
+theorem C08_write_fault_is_reported (sh : Shape) (w : World) (hs : Surfaces w (writeFits sh w.env).trace)
+    (j : Nat) (hj : j < (writeFits sh w.env).trace.length) (o : IoOp) (ho : o ∈ w.io j) (hbad : o.bad = true) :
+    (writeFits sh w.env).outcome = .failure :=
+  bad_op_reported (coreSteps sh) w hs j hj o ho hbad
+
+/-- a world for the examples: a 1-d table without periods/extents (9 calls, the close is call 8); everything is written
+    inside the close; the second write fails after 7 bytes (short write, no space) and the close reports it -/
+def exampleWorld : World :=
+  ⟨fun i => i != 8,
+   fun j => if j = 8 then [⟨.pwrite 0 [1, 2, 3], true, 0⟩, ⟨.pwrite 3 (List.replicate 20 9), false, 7⟩, ⟨.close, true, 0⟩] else [],
+   false, false⟩
+
+example : (∃ o ∈ exampleWorld.io 8, o.bad = true) ∧ 8 < (writeFits ⟨1, false, 0, false⟩ exampleWorld.env).trace.length ∧
+    (writeFits ⟨1, false, 0, false⟩ exampleWorld.env).outcome = .failure ∧
+    diskAfter (coreSteps ⟨1, false, 0, false⟩) exampleWorld (some [42]) = none := by decide
+
+/-- the contract holds in that world (the short write happens inside the close, which reports it) -/
+example : Surfaces exampleWorld (writeFits ⟨1, false, 0, false⟩ exampleWorld.env).trace := by
+  intro j _ ⟨o, ho, _⟩
+  have hj8 : j = 8 := by
+    by_cases h : j = 8
+    · exact h
+    · simp [exampleWorld, h] at ho
+  subst hj8
+  exact ⟨8, Nat.le_refl _, .clos, by decide⟩
+
+/-- C08 (what a failed write leaves, all operation logs): when `write_fits` reports a failure, no file of that name is
+    left behind, or — only when creating the file failed — the file which was there before is untouched, unless the
+    clean-up call (`fits_delete_file` after a failing `write_fits_core`, `remove` after a failing close) failed too. -/
+theorem C08_failure_leaves_no_file (sh : Shape) (w : World) (prev : Option Bytes)
+    (h : (writeFits sh w.env).outcome = .failure) :
+    diskAfter (coreSteps sh) w prev = none ∨
+    ((writeFits sh w.env).trace = [(.init, false)] ∧ diskAfter (coreSteps sh) w prev = prev) ∨
+    (Step.delt, false) ∈ (writeFits sh w.env).trace ∨ (Step.remove, false) ∈ (writeFits sh w.env).trace :=
+  failure_disk (coreSteps sh) (coreSteps_plain sh) w prev h
+
+/-- **C08 (every single fault)**: if exactly one call of a run reports an error — any call, on any operation log, with
+    any failing or short libc operations behind it — then `write_fits` reports a failure, and a reader of that file
+    name afterwards finds no file (rejects) or, when it was the create that failed, possibly the untouched previous
+    file: never a table made of what this write left behind. -/
+theorem C08_single_fault_leaves_no_other_table (sh : Shape) (w : World) (prev : Option Bytes)
+    (h1 : failures (writeFits sh w.env).trace = 1) :
+    (writeFits sh w.env).outcome = .failure ∧
+    (diskAfter (coreSteps sh) w prev = none ∨ diskAfter (coreSteps sh) w prev = prev) ∧
+    (readDisk (diskAfter (coreSteps sh) w prev) = none ∨ readDisk (diskAfter (coreSteps sh) w prev) = readDisk prev) := by
+  have hfail : (writeFits sh w.env).outcome = .failure := by
+    have hne : (writeFits sh w.env).trace.filter (fun c => !c.2) ≠ [] := by
+      intro e; unfold failures at h1; rw [e] at h1; exact absurd h1 (by simp)
+    obtain ⟨c, hc⟩ := List.exists_mem_of_ne_nil _ hne
+    obtain ⟨hc1, hc2⟩ := List.mem_filter.1 hc
+    exact C08_failing_call_is_reported sh w.env c hc1 (by simpa using hc2)
+  have hclean := single_failure (coreSteps sh) (coreSteps_plain sh) w.env (Nat.le_of_eq h1)
+  have hd : diskAfter (coreSteps sh) w prev = none ∨ diskAfter (coreSteps sh) w prev = prev := by
+    rcases C08_failure_leaves_no_file sh w prev hfail with h | ⟨_, h⟩ | h | h
+    · exact Or.inl h
+    · exact Or.inr h
+    · exact absurd h hclean.1
+    · exact absurd h hclean.2
+  refine ⟨hfail, hd, ?_⟩
+  rcases hd with h | h
+  · left; rw [h]; rfl
+  · right; rw [h]
+
+example : failures (writeFits ⟨1, false, 0, false⟩ exampleWorld.env).trace = 1 := by decide
+
+/-- The hypothesis "one failing call" cannot be dropped (a limit of the code, not of the proof): with *two* faults — a
+    write that fails while later writes of the same flush succeed, and a `remove` that fails afterwards — `write_fits`
+    reports the failure but a file with a hole stays behind, which is not a prefix of the complete file (here
+    `1,2,3,0,0,6` instead of `1,2,3,4,5,6`); when the hole lies in the coefficient data, such a file loads as a
+    different table (the zeroed-block files of the check: `coverage.hole_states`).  Outside the property's quantifier
+    (a single failing operation). -/
+theorem C08_two_faults_limit :
+    ∃ w : World, failures (writeFits ⟨1, false, 0, false⟩ w.env).trace = 2 ∧
+      (writeFits ⟨1, false, 0, false⟩ w.env).outcome = .failure ∧
+      diskAfter (coreSteps ⟨1, false, 0, false⟩) w none = some [1, 2, 3, 0, 0, 6] ∧
+      diskAfter (coreSteps ⟨1, false, 0, false⟩) ⟨fun _ => true, fun j => (w.io j).map fun o => { o with ok := true }, false, false⟩ none
+        = some [1, 2, 3, 4, 5, 6] :=
+  ⟨⟨fun i => i != 8 && i != 9,
+    fun j => if j = 8 then [⟨.pwrite 0 [1, 2, 3], true, 0⟩, ⟨.pwrite 3 [4, 5], false, 0⟩, ⟨.pwrite 5 [6], true, 0⟩, ⟨.close, true, 0⟩]
+             else [],
+    false, false⟩, by decide, by decide, by decide, by decide⟩
+
+/-- C08 (success): under the contract `Surfaces` a reported success means that no write and no close failed in any
+    call, and the file consists of everything the calls wrote; if that is the encoding of a well-formed table (tied
+    byte for byte on every run), the file reads back equal to the table. -/
+theorem C08_success_file_complete (sh : Shape) (w : World) (prev : Option Bytes)
+    (hs : Surfaces w (writeFits sh w.env).trace) (h : (writeFits sh w.env).outcome = .success) :
+    (∀ j, j < (writeFits sh w.env).trace.length → ∀ o ∈ w.io j, o.bad = false) ∧
+    diskAfter (coreSteps sh) w prev = some ((ioRange w 0 (writeFits sh w.env).trace.length).foldl IoOp.apply []) ∧
+    ∀ t : Table, t.wf = true → (ioRange w 0 (writeFits sh w.env).trace.length).foldl IoOp.apply [] = encode t →
+      ∃ v, readDisk (diskAfter (coreSteps sh) w prev) = some v ∧ v.core = t.core := by
+  have hdisk := success_disk (coreSteps sh) (coreSteps_plain sh) w prev h
+  refine ⟨?_, hdisk, ?_⟩
+  · intro j hj o ho
+    cases hb : o.bad with
+    | false => rfl
+    | true =>
+      have := C08_write_fault_is_reported sh w hs j hj o ho hb
+      rw [h] at this; exact absurd this (by simp)
+  · intro t ht hfile
+    unfold writeFits at hdisk
+    rw [hdisk]
+    show ∃ v, readBytes _ = some v ∧ _
+    unfold writeFits at hfile
+    rw [hfile]
+    exact C08_write_reads_back t ht
+
+example : Surfaces ⟨fun _ => true, fun _ => [], false, false⟩ (writeFits ⟨1, false, 0, false⟩ (fun _ => true)).trace ∧
+    (writeFits ⟨1, false, 0, false⟩ (fun _ => true)).outcome = .success :=
+  ⟨fun j _ ⟨o, ho, _⟩ => absurd ho (by simp), by decide⟩
+
+/-! Part 5: atomicity — what a crash can leave.  The writer does not write to a temporary name: it creates the file
+    under its final name (removing the previous one) and cfitsio writes it front to back (`appendOnly`, evaluated by
+    the driver on the operation log recorded for every generated table).  The invariant over prefixes of such a log:
+    the file is always a byte prefix of the complete file.  So a crash leaves, under that name, nothing, or a file
+    which is rejected or loads equal to the table being written — never a different table, but also not the previous
+    table: old-or-new atomicity is *not* offered. -/
+
+/-- C08 (invariant over operation-log prefixes): for a log that writes front to back (every write starts at the
+    current end of the file), the file after any number of complete operations plus any number of bytes of the next
+    one is a prefix of the complete file. -/
+theorem C08_crash_states_are_prefixes (ops : List Op) (hao : appendOnly 0 ops = true) (k b : Nat) :
+    crashState ops k b <+: applyOps [] ops := by
+  rw [crashState_eq]
+  exact crash_prefix ops [] k b hao
+
+example : appendOnly 0 (sequentialOps 0 [1, 2, 3, 4, 5, 6, 7] [3, 2, 2]) = true ∧
+    crashState (sequentialOps 0 [1, 2, 3, 4, 5, 6, 7] [3, 2, 2]) 1 1 = [1, 2, 3, 4] := by decide
+
+/-- **C08 (crash safety)**: whatever prefix of the operations the writer issues for a well-formed table has reached the
+    file — at operation or at byte granularity — the file is rejected or loads with orders, axes, coefficients and knots
+    equal to the table's.  Hypotheses: the log writes front to back and its complete result is the table's encoding
+    (both evaluated per run on the recorded log; the encoding is compared byte for byte with cfitsio's file). -/
+theorem C08_crash_safe (t : Table) (h : t.wf = true) (ops : List Op) (hao : appendOnly 0 ops = true)
+    (hfin : applyOps [] ops = encode t) (k b : Nat) :
+    readBytes (crashState ops k b) = none ∨ ∃ v, readBytes (crashState ops k b) = some v ∧ v.core = t.core := by
+  have hp := C08_crash_states_are_prefixes ops hao k b
+  rw [hfin] at hp
+  rw [List.prefix_iff_eq_take.1 hp]
+  exact C08_prefix_safe t h _
+
+example : appendOnly 0 [.pwrite 0 ((encode twoDimTable).take 2880), .flush,
+      .pwrite ((encode twoDimTable).take 2880).length ((encode twoDimTable).drop 2880), .close] = true ∧
+    applyOps [] [.pwrite 0 ((encode twoDimTable).take 2880), .flush,
+      .pwrite ((encode twoDimTable).take 2880).length ((encode twoDimTable).drop 2880), .close] = encode twoDimTable := by
+  have h : appendOnly 0 [.pwrite 0 ((encode twoDimTable).take 2880), .flush,
+      .pwrite ((encode twoDimTable).take 2880).length ((encode twoDimTable).drop 2880), .close] = true := by
+    simp [appendOnly]
+  exact ⟨h, by rw [applyOps_appendOnly _ [] h]; simp [payload]⟩
+
+/-- C08 (no old-or-new atomicity): once `fits_create_file` has returned, the table that was stored under that name
+    before is gone — a crash right then leaves an empty file, which every reader rejects, whatever was there. -/
+theorem C08_previous_table_is_not_preserved (w : World) (prev : Option Bytes) (h0 : w.io 0 = []) :
+    readDisk (diskOfTrace w prev [(.init, true)] 0 prev) = none := by
+  show readDisk (some ((w.io 0).foldl IoOp.apply [])) = none
+  rw [h0, List.foldl_nil]
+  show readTable (hdusOf []) = none
+  unfold hdusOf
+  rw [readHdus_nil]
+  rfl
 
 end PsV
